@@ -44,3 +44,8 @@ claim('C04',
       note="Trusted: harness/refs/fd_scheme.py for the corner outflow; dadi's own _compute_dt is used only to choose the duration so that the step sequence is known. Interior = every coordinate of the marginal strictly inside (0,1).",
       technique="property-based testing (Hypothesis) of conservation invariants plus exhaustive enumeration of frozen/migration pairs",
       design_ref="DESIGN.md 3/C04")
+claim('C05',
+      text="Every sampling path (semi-analytic 1-5-D, direct 1-4-D with het_ascertained, admix_props 2-4-D, inbreeding 1-3-D with ploidy 2-8) is compared entry by entry with an independent operator (Gauss-Legendre integration of binomial x hat basis, trapezoid x binomial, binomial at mixed frequencies, convolved beta-binomials), plus totals = trapezoid mass, sample-then-project = sample, marginalise before/after, linearity, rejection of non-stochastic admixture rows, F->0 and F=0 limits and grids overshooting [0,1] in both cache orders.",
+      note="Trusted: harness/refs/sampling.py (numpy leggauss, math.comb, lgamma). One shared grid in all dimensions (the semi-analytic path requires it). Open finding C05-mixed-zero-F is excluded by construction and re-probed on every run.",
+      technique="property-based differential testing (Hypothesis) against independent quadrature / convolution oracles",
+      design_ref="DESIGN.md 3/C05")
